@@ -209,6 +209,55 @@ pub fn oracle_c01(rng: &mut Rng, tier: &str) -> Report {
     rep
 }
 
+// ------------------------------------------------------------------ C02: sizes beyond what the model is run on
+
+/// mapper == cache on mappings with 2^16-ish entries per method / per class (counter widths,
+/// windowed scans): implementation-only comparison, no model involved
+pub fn oracle_c02(_rng: &mut Rng, tier: &str) -> Report {
+    let mut rep = Report::new();
+    let sizes: Vec<usize> = if thorough(tier) { vec![255, 256, 257, 4095, 4096, 65535, 65536, 65537, 70000, 131073] } else { vec![257, 65536, 65537, 70000] };
+    for n in sizes {
+        let mut t = String::with_capacity(n * 40);
+        t.push_str("o.Big -> big:\n");
+        for i in 0..n {
+            t.push_str(&format!("    {}:{}:void render(int):{}:{} -> a\n", i + 1, i + 1, i + 1, i + 1));
+        }
+        t.push_str("    void other.Helper.flush(long) -> a\n    void tail() -> zz\no.After -> z:\n    void q(int) -> k\n");
+        let ms: &'static [u8] = Box::leak(t.into_bytes().into_boxed_slice());
+        let mapper = proto::cur::mapper(ms, true);
+        let cbytes = proto::aligned_static(&proto::cur::write_cache(ms));
+        let Ok(cache) = ProguardCache::parse(cbytes) else {
+            rep.fail("own output does not parse", vec![format!("# {} member lines under one method name", n)], String::new());
+            continue;
+        };
+        let mut qs: Vec<Query> = vec![
+            Query::Cls("big".into()), Query::Cls("z".into()), Query::Mth("big".into(), "a".into()), Query::Mth("big".into(), "zz".into()),
+            Query::Frp("big".into(), "a".into(), "long".into()), Query::Frp("big".into(), "a".into(), "int".into()),
+            Query::Frp("big".into(), "zz".into(), "".into()), Query::Frp("z".into(), "k".into(), "int".into()),
+        ];
+        for l in [0usize, 1, 2, 127, 128, 129, 255, 256, 257, 271, 272, 4096, 65535, 65536, 65537, n - 1, n, n + 1] {
+            qs.push(Query::Frl("big".into(), "a".into(), l, None));
+        }
+        for q in &qs {
+            rep.checks += 1;
+            let a = q.run(&mapper);
+            let b = q.run(&cache);
+            if a != "[]" && a != "-" {
+                rep.nontrivial += 1;
+            }
+            if a != b {
+                rep.fail(
+                    "mapper and cache disagree on a large mapping",
+                    vec![format!("# mapping: class big with {} lines `i:i:void render(int):i:i -> a`, then `void other.Helper.flush(long) -> a`, `void tail() -> zz`, class z", n), q.op(false)],
+                    format!("mapper={} cache={}", &a[..a.len().min(300)], &b[..b.len().min(300)]),
+                );
+            }
+        }
+        rep.sample(format!("{} member lines under one name, {} queries", n, qs.len()));
+    }
+    rep
+}
+
 // ------------------------------------------------------------------ C06: totality + resync
 
 #[derive(PartialEq, Clone, Debug)]
@@ -689,7 +738,18 @@ pub fn oracle_c11(rng: &mut Rng, tier: &str) -> Report {
             cfg.max_classes = 2;
             cfg.max_members = 2;
         }
-        let text = if i == 0 { Vec::new() } else if i % 7 == 0 { gen_mapping(rng, &Cfg::hostile()).text } else { domain_mapping(rng, &cfg) };
+        let mut text = if i == 0 { Vec::new() } else if i % 7 == 0 { gen_mapping(rng, &Cfg::hostile()).text } else { domain_mapping(rng, &cfg) };
+        if i % 5 == 2 {
+            if !text.is_empty() && !matches!(text.last(), Some(b'\n') | Some(b'\r')) {
+                text.push(b'\n');
+            }
+            let len = rng.pick(&[127usize, 128, 129, 200, 300, 16383, 16384, 16400]);
+            match rng.below(3) {
+                0 => text.extend_from_slice(format!("o.{} -> zlast:", "L".repeat(len)).as_bytes()),
+                1 => text.extend_from_slice(format!("o.Z -> zlast:\n    void m({}) -> a", "p".repeat(len)).as_bytes()),
+                _ => text.extend_from_slice(format!("o.Z -> zlast:\n    void o.{}.m() -> a\n", "F".repeat(len)).as_bytes()),
+            }
+        }
         let u = universe(&text);
         let bytes = proto::cur::write_cache(&text);
         let full = proto::aligned_static(&bytes);
@@ -699,7 +759,7 @@ pub fn oracle_c11(rng: &mut Rng, tier: &str) -> Report {
         };
         let qs = query_universe(rng, &u, 2);
         let want = cache_answers_cur(&fc, &qs);
-        let step = if bytes.len() > 2000 && !th { 13 } else { 1 };
+        let step = if bytes.len() > 20000 { 211 } else if bytes.len() > 2000 && !th { 13 } else { 1 };
         let mut k = 0;
         while k < bytes.len() {
             rep.checks += 1;
@@ -725,6 +785,26 @@ pub fn oracle_c11(rng: &mut Rng, tier: &str) -> Report {
                 }
             }
             k += step;
+        }
+        // the last bytes always (torn tail)
+        for k in bytes.len().saturating_sub(12)..bytes.len() {
+            rep.checks += 1;
+            let p = proto::aligned_static(&bytes[..k]);
+            if let Ok(Ok(pc)) = catch_unwind(AssertUnwindSafe(|| proto::cur::parse_cache(p))) {
+                let got = cache_answers_cur(&pc, &qs);
+                for ((q, a), b) in qs.iter().zip(want.iter()).zip(got.iter()) {
+                    if a != b {
+                        rep.fail(
+                            "an accepted strict prefix answers differently from the full file",
+                            vec![format!("BUF {}", hx(&bytes)), q.op(true), format!("BUF {}", hx(&bytes[..k])), q.op(true)],
+                            format!("full={} prefix({} of {})={}", a, k, bytes.len(), b),
+                        );
+                        break;
+                    }
+                }
+            } else {
+                rep.nontrivial += 1;
+            }
         }
         if i < 2 {
             rep.sample(format!("{} byte cache, {} prefixes", bytes.len(), bytes.len() / step));
@@ -1133,6 +1213,8 @@ pub fn run_oracle(prop: &str, tier: &str, seed: u64) -> Option<Report> {
     let mut rng = Rng::new(seed.wrapping_mul(7919).wrapping_add(prop.bytes().fold(7u64, |a, b| a * 131 + b as u64)));
     Some(match prop {
         "C01" => oracle_c01(&mut rng, tier),
+        "C02" => oracle_c02(&mut rng, tier),
+        "C03" => oracle_c02(&mut rng, tier),
         "C06" => oracle_c06(&mut rng, tier),
         "C07" => oracle_c07(&mut rng, tier),
         "C08" => oracle_c08(&mut rng, tier),
